@@ -424,6 +424,42 @@ func signedUnit() harness.Unit {
 								c.Violate("signed-invalid-accepted:"+what, fmt.Sprintf("[%s] signed data verifies although %s", tag, what), nil, nil)
 							}
 						}
+						// re-verification histories on ONE parsed object: every sequence of up to 3
+						// (set Content, Verify) steps; the verdict depends on the current content only
+						{
+							alts := [][]byte{content, append(append([]byte{}, content...), 0x01), {}}
+							if L > 0 {
+								m := append([]byte{}, content...)
+								m[L/2] ^= 1
+								alts = append(alts, m)
+							}
+							der := buildSigned(base)
+							n := len(alts)
+							for seq := 0; seq < n*n*n; seq++ {
+								steps := []int{seq % n, (seq / n) % n, seq / (n * n)}
+								c.Add("evaluations", 1)
+								c.DistinctS("nontrivial", fmt.Sprintf("%s/reverify/%v", tag, steps))
+								c.Guard("signed-panic:reverify", "re-verification "+tag, nil, func() {
+									p7, err := gx509.ParsePKCS7(der)
+									if err != nil {
+										return // reported by the one-shot case
+									}
+									for i, st := range steps {
+										p7.Content = append([]byte{}, alts[st]...)
+										err := p7.Verify()
+										genuine := bytes.Equal(alts[st], content)
+										if genuine && err != nil {
+											c.Violate(fmt.Sprintf("signed-reverify:genuine-rejected:attrs=%v:detached=%v", attrs, det), fmt.Sprintf("[%s] step %d of content history %v on one parsed object: genuine content rejected: %v", tag, i, steps, err), nil, nil)
+											return
+										}
+										if !genuine && err == nil {
+											c.Violate(fmt.Sprintf("signed-reverify:other-content-accepted:attrs=%v:detached=%v", attrs, det), fmt.Sprintf("[%s] step %d of content history %v on one parsed object: content the signer never signed verifies", tag, i, steps), nil, nil)
+											return
+										}
+									}
+								})
+							}
+						}
 						run("valid", base, content, true)
 						run("content changed", base, append(append([]byte{}, content...), 0x01), false)
 						if L > 0 {
@@ -651,9 +687,9 @@ func blockTypes(bs []*pem.Block) []string {
 
 // Prop registers C17.
 var Prop = &harness.Prop{
-	ID:    "C17",
-	Level: "exploration",
-	Rule: "enveloped data: every content length 0..300 and around 65280..65536 with one SM2 and one RSA recipient for both content algorithms (DER length-encoding boundaries inside the container), attached signed data of the same lengths; full product content lengths {0,1,7,8,9,15,16,17,1000,65536} x content algorithm {DES-CBC, AES-128-GCM} x {SM2 C1C3C2, SM2 C1C2C3, RSA} x 1..3 recipients: each recipient recovers the content; another key, a non-recipient certificate, the other ordering and a key of the wrong type must give an error (not a panic). signed data: SM2 objects built by the harness in the GM/T 0010 layout over lengths x attributes x attached/detached x both OID pairs verify, and each of 8 tamperings (content, signature, signer certificate, each signed attribute) is rejected; the package's own RSA creation path must verify. PKCS#12: 2 SM2 identities x 4 passwords (empty, ASCII, spaces, non-ASCII): round trip through DecodeAll/ToPEM, every other password refused; fault enumeration over one bundle per password: every byte substitution and every truncation gives an error or the same content. Distinct/non-trivial = distinct case labels / mutated bundles.",
+	ID:          "C17",
+	Level:       "exploration",
+	Rule:        "enveloped data: every content length 0..300 and around 65280..65536 with one SM2 and one RSA recipient for both content algorithms (DER length-encoding boundaries inside the container), attached signed data of the same lengths; full product content lengths {0,1,7,8,9,15,16,17,1000,65536} x content algorithm {DES-CBC, AES-128-GCM} x {SM2 C1C3C2, SM2 C1C2C3, RSA} x 1..3 recipients: each recipient recovers the content; another key, a non-recipient certificate, the other ordering and a key of the wrong type must give an error (not a panic). signed data: SM2 objects built by the harness in the GM/T 0010 layout over lengths x attributes x attached/detached x both OID pairs verify, and each of 8 tamperings (content, signature, signer certificate, each signed attribute) is rejected; the package's own RSA creation path must verify. PKCS#12: 2 SM2 identities x 4 passwords (empty, ASCII, spaces, non-ASCII): round trip through DecodeAll/ToPEM, every other password refused; fault enumeration over one bundle per password: every byte substitution and every truncation gives an error or the same content. Distinct/non-trivial = distinct case labels / mutated bundles.",
 	Assumptions: []string{"the PKCS#7 content-encryption selector is a process-wide setting changed only between units (single-threaded)", "RSA recipient certificates come from Go's crypto/x509"},
 	Bounds: func(tier string) string {
 		if tier == "thorough" {
